@@ -115,7 +115,10 @@ Definition deadline (maxcap : N) (p : pkt) : option Z :=
   min_optz (if (p_ver p =? 5) && (0 <? e)%Z then Some e else None)
            (if 0 <? maxcap then Some (Z.of_N (p_created p + maxcap)) else None).
 
-Definition wire_expiry (p : pkt) : Z := let e := unhold (p_expiry p) in if (0 <? e)%Z then e else 0%Z.
+(* only a PUBLISH is written with a message expiry interval *)
+Definition wire_expiry (p : pkt) : Z :=
+  let e := unhold (p_expiry p) in
+  if (match p_fh p with VL (VN t :: _) => t | _ => 3 end =? 3) && (0 <? e)%Z then e else 0%Z.
 
 (* the fixed header (type qos dup retain remaining) without the DUP flag: the flag of a stored
    record is never sent as it is (every delivery from the in-flight store sets it, every delivery of
@@ -257,8 +260,11 @@ Definition KF_C20_sub_key_collision (aws : list awr) : bool :=
    message expiry interval (set to -1 by the deferral path C25-1, to the due time of a delayed will
    C16-3): it cannot be recomputed after a restart *)
 Definition irregular (maxcap : N) (p : pkt) : bool :=
-  negb (unhold (p_expiry p) =? regular_expiry maxcap (p_created p) (eff_mei (p_fh p) (p_mei p)))%Z
-  || ((0 <? eff_mei (p_fh p) (p_mei p)) && negb (p_ver p =? 5)).   (* an expiry interval on a packet not marked MQTT 5 *)
+  if fh_type (p_fh p) =? 3
+  then negb (unhold (p_expiry p) =? regular_expiry maxcap (p_created p) (eff_mei (p_fh p) (p_mei p)))%Z
+       || ((0 <? eff_mei (p_fh p) (p_mei p)) && negb (p_ver p =? 5))   (* an expiry interval on a packet not marked MQTT 5 *)
+  else (* an acknowledgement kept in flight: its expiry time only counts if it is marked MQTT 5 *)
+       (p_ver p =? 5) && negb (unhold (p_expiry p) =? regular_expiry maxcap (p_created p) 0)%Z.
 Definition KF_C20_irregular_expiry (maxcap : N) (aws : list awr) : bool :=
   existsb (fun a => match a with
                     | ASetRet _ p => irregular maxcap p
